@@ -279,20 +279,34 @@ func zzC04CallClass(lam *Lambda, s *Scope, args List) (class int) {
 	return 0
 }
 
-// zzC04Actuals builds the argument vector: positional arguments are symbolic
+// zzC04Actuals builds the argument vector: required arguments are symbolic
 // fixnums, each element of the tail (what follows the positional parameters)
 // is a symbolic fixnum, one of the lambda list's own keys, or an unknown key.
-func zzC04Actuals(sh zzC04Shape, nargs int) List {
+// With vals != 0 the arguments for &optional parameters and every tail element
+// may also be an explicit nil or the plain symbol zzs (vrt.Choice): a supplied
+// nil must be bound as nil, not replaced by the parameter's default.
+func zzC04Actuals(sh zzC04Shape, nargs int, vals int) List {
 	args := make(List, 0, nargs)
 	npos := sh.nreq + sh.nopt
 	for i := 0; i < nargs; i++ {
-		kind := 0
-		if npos <= i {
-			switch {
-			case 0 < sh.nkey:
-				kind = vrt.Choice(zzC04Name("t", i), sh.nkey+2)
-			case sh.rest:
-				kind = vrt.Choice(zzC04Name("t", i), 2) * (sh.nkey + 1)
+		kind := 0 // 0 fixnum, 1..nkey own key, nkey+1 unknown key, nkey+2 nil, nkey+3 symbol zzs
+		extra := 0
+		if vals != 0 {
+			extra = 2
+		}
+		switch {
+		case i < sh.nreq:
+		case i < npos:
+			if vals != 0 {
+				if c := vrt.Choice(zzC04Name("v", i), 3); 0 < c {
+					kind = sh.nkey + 1 + c
+				}
+			}
+		case 0 < sh.nkey:
+			kind = vrt.Choice(zzC04Name("t", i), sh.nkey+2+extra)
+		case sh.rest:
+			if c := vrt.Choice(zzC04Name("t", i), 2+extra); 0 < c {
+				kind = sh.nkey + c
 			}
 		}
 		switch {
@@ -300,8 +314,12 @@ func zzC04Actuals(sh zzC04Shape, nargs int) List {
 			args = append(args, Fixnum(vrt.Int64(zzC04Name("a", i))))
 		case kind <= sh.nkey:
 			args = append(args, Symbol(":"+zzC04Name("k", kind-1)))
-		default:
+		case kind == sh.nkey+1:
 			args = append(args, Symbol(":zz"))
+		case kind == sh.nkey+2:
+			args = append(args, nil)
+		default:
+			args = append(args, Symbol("zzs"))
 		}
 	}
 	return args
@@ -313,10 +331,11 @@ func zzC04Actuals(sh zzC04Shape, nargs int) List {
 // init form (+ r0 1) (or (+ 40 2) without required parameters).
 // outer = 1: the calling scope has variables named like every optional and key
 // parameter (bound to 999), which must not influence the bindings.
-func VerifC04Bind(nreq, nopt, optdef, rest, nkey, keydef, allow, naux, nargs, outer int) {
+// vals = 1: optional arguments and tail elements may also be nil or a symbol.
+func VerifC04Bind(nreq, nopt, optdef, rest, nkey, keydef, allow, naux, nargs, outer, vals int) {
 	sh := zzC04Shape{nreq: nreq, nopt: nopt, optdef: optdef, rest: rest != 0, body: rest == 2, nkey: nkey, keydef: keydef,
 		allow: allow != 0, naux: naux}
-	args := zzC04Actuals(sh, nargs)
+	args := zzC04Actuals(sh, nargs, vals)
 	if 2 < naux && 0 < nreq && 0 < nargs {
 		// x2 = (+ r0 1): keep the sum inside the fixnum range (overflow is C05's subject)
 		r0 := int64(args[0].(Fixnum))
